@@ -231,6 +231,7 @@ func (f *frame) callCommon(c *ssa.CallCommon, in ssa.Instruction, st *bstate, re
 	if cs != nil {
 		f.callsiteAfter(cs, c, args, res, st, label, in)
 	}
+	f.lockTrack(name, st)
 	f.recordErr(name, ord, res, resT, cs, label, st)
 	return res
 }
@@ -854,6 +855,7 @@ func (f *frame) runDefers(st *bstate, at ssa.Instruction) {
 		if cs != nil {
 			f.callsiteAfter(cs, c, d.args, TV{}, branch, "defer "+name, at)
 		}
+		f.lockTrack(name, branch)
 		skip := st.clone()
 		skip.alive = vc.define("a", "Bool", and(st.alive, not(armed)))
 		m := f.mergeStates(d.instr.Block(), []inEdge{{cond: branch.alive, st: branch}, {cond: skip.alive, st: skip}})
